@@ -2272,7 +2272,7 @@ Proof. reflexivity. Qed.
 
 Lemma view_xfu_mk f6 host own p q u : view_xfu f6 host own p q = Some u ->
   wfenc p -> valid_encoded p = true -> has_prefix "/" p = true ->
-  is_empty p = false /\ u = mk_view host p (values_encode (fst (parse_query q))).
+  is_empty p = false /\ u = mk_view host p q.
 Proof.
   intros V W Ev Hp. unfold view_xfu in V. destruct (has_ctl p || has_ctl q); [discriminate|].
   destruct (wfenc_unescape p W) as [pa Hpa].
@@ -2378,7 +2378,7 @@ Lemma view_xfu_eq f6 host own p q : wfenc p -> has_prefix "/" p = true ->
   view_xfu f6 host own p q =
   if has_ctl p || has_ctl q then None
   else Some (mk_view host (if valid_encoded p then p else escape MPath (unescape_or_empty p))
-                     (values_encode (fst (parse_query q)))).
+                     q).
 Proof.
   intros W Hp. unfold view_xfu. destruct (has_ctl p || has_ctl q); [reflexivity|].
   destruct (wfenc_unescape p W) as [pa Hpa].
